@@ -38,6 +38,42 @@ void register_b()
         S_sum("ls", S_arg("la", "a", vt::int_), S_arg("lb", "b", vt::string_)), alpha({"3"}));
   SHAPE("sum_unit_switch_arg", (o::make_sum<ls>(usw<la>(nullptr, "help"), arg<lb, int>("b"))),
         S_sum("ls", S_unit_switch("la", std::nullopt, "help"), S_arg("lb", "b", vt::int_)), alpha({"--help", "3"}));
+  // unit inside compositions: it succeeds only on an empty remaining state and consumes nothing, so as the left part of a
+  // sum or product the right part only ever sees an empty state, and as the right part it demands that everything is gone
+  SHAPE("sum_unit_arg", (o::make_sum<ls>(o::unit<la>{}, arg<lb, int>("b"))), S_sum("ls", S_unit("la"), S_arg("lb", "b", vt::int_)), alpha({"3"}));
+  SHAPE("sum_arg_unit", (o::make_sum<ls>(arg<lb, int>("b"), o::unit<la>{})), S_sum("ls", S_arg("lb", "b", vt::int_), S_unit("la")), alpha({"3"}));
+  SHAPE("product_unit_switch", (o::apply(o::unit<la>{}, sw<lb>("f", "flag"))), S_product({S_unit("la"), S_switch("lb", "f", "flag")}),
+        alpha({"-f", "--flag"}));
+  SHAPE("product_switch_unit", (o::apply(sw<lb>("f", "flag"), o::unit<la>{})), S_product({S_switch("lb", "f", "flag"), S_unit("la")}),
+        alpha({"-f", "--flag"}));
+  SHAPE("product_unit_optional_arg", (o::apply(o::unit<la>{}, o::make_optional(arg<lb, int>("b")))),
+        S_product({S_unit("la"), S_optional(S_arg("lb", "b", vt::int_))}), alpha({"3"}));
+  SHAPE("optional_unit", (o::make_optional(o::unit<la>{})), S_optional(S_unit("la")), alpha({"3"}));
+  // every leaf kind in every composition position it was not yet seen in
+  SHAPE("optional_switch", (o::make_optional(sw<la>("f", "flag"))), S_optional(S_switch("la", "f", "flag")), alpha({"-f", "--flag"}));
+  SHAPE("optional_flag", (o::make_optional(fl<la, int>("f", "flag", 42, 10))), S_optional(S_flag("la", "f", "flag", "42", "10")), alpha({"-f", "--flag"}));
+  SHAPE("optional_unit_switch", (o::make_optional(usw<la>("u", "unit"))), S_optional(S_unit_switch("la", "u", "unit")), alpha({"-u", "--unit"}));
+  SHAPE("many_unit_switch", (o::make_many(usw<la>("u", "unit"))), S_many(S_unit_switch("la", "u", "unit")), alpha({"-u", "--unit"}));
+  SHAPE("product_flag_arg", (o::apply(fl<la, int>("f", "flag", 42, 10), arg<lb, std::string>("b"))),
+        S_product({S_flag("la", "f", "flag", "42", "10"), S_arg("lb", "b", vt::string_)}), alpha({"-f", "--flag"}));
+  SHAPE("product_arg_flag", (o::apply(arg<lb, std::string>("b"), fl<la, int>("f", "flag", 42, 10))),
+        S_product({S_arg("lb", "b", vt::string_), S_flag("la", "f", "flag", "42", "10")}), alpha({"-f", "--flag"}));
+  SHAPE("product_usw_arg", (o::apply(usw<la>("u", "unit"), arg<lb, std::string>("b"))),
+        S_product({S_unit_switch("la", "u", "unit"), S_arg("lb", "b", vt::string_)}), alpha({"-u", "--unit"}));
+  SHAPE("product_arg_usw", (o::apply(arg<lb, std::string>("b"), usw<la>("u", "unit"))),
+        S_product({S_arg("lb", "b", vt::string_), S_unit_switch("la", "u", "unit")}), alpha({"-u", "--unit"}));
+  SHAPE("sum_switch_arg", (o::make_sum<ls>(sw<la>("f", "flag"), arg<lb, int>("b"))), S_sum("ls", S_switch("la", "f", "flag"), S_arg("lb", "b", vt::int_)),
+        alpha({"-f", "--flag", "3"}));
+  SHAPE("sum_arg_switch", (o::make_sum<ls>(arg<lb, int>("b"), sw<la>("f", "flag"))), S_sum("ls", S_arg("lb", "b", vt::int_), S_switch("la", "f", "flag")),
+        alpha({"-f", "--flag", "3"}));
+  SHAPE("sum_arg_flag", (o::make_sum<ls>(arg<lb, int>("b"), fl<la, int>("f", "flag", 42, 10))),
+        S_sum("ls", S_arg("lb", "b", vt::int_), S_flag("la", "f", "flag", "42", "10")), alpha({"-f", "--flag", "3"}));
+  SHAPE("sum_option_arg", (o::make_sum<ls>(op<la, int>("o", "opt"), arg<lb, std::string>("b"))),
+        S_sum("ls", S_option("la", "o", "opt", vt::int_, std::nullopt), S_arg("lb", "b", vt::string_)), alpha({"-o", "--opt", "3"}));
+  SHAPE("sum_arg_option", (o::make_sum<ls>(arg<lb, int>("b"), op<la, std::string>("o", "opt"))),
+        S_sum("ls", S_arg("lb", "b", vt::int_), S_option("la", "o", "opt", vt::string_, std::nullopt)), alpha({"-o", "--opt", "3"}));
+  SHAPE("sum_usw_usw", (o::make_sum<ls>(usw<la>("u", "unit"), usw<lb>("v", "vnit"))),
+        S_sum("ls", S_unit_switch("la", "u", "unit"), S_unit_switch("lb", "v", "vnit")), alpha({"-u", "--unit", "-v", "--vnit"}));
   SHAPE("sum_product_arg", (o::make_sum<ls>(o::apply(arg<la, int>("a"), arg<lb, int>("b")), arg<lc, std::string>("c"))),
         S_sum("ls", S_product({S_arg("la", "a", vt::int_), S_arg("lb", "b", vt::int_)}), S_arg("lc", "c", vt::string_)), alpha({"3"}));
   SHAPE("sum_option_option", (o::make_sum<ls>(op<la, int>("o", "opt"), op<lb, std::string>("p", "pp"))),
